@@ -413,6 +413,8 @@ def step (d : DState) (line : String) : DState × List String :=
       let args := (List.range n).map (fun i => s!"#{i}")
       let kw := if kws = "-" then [] else (kws.splitOn ",").map (fun k => (k, k))
       (d, ["vbind " ++ ",".intercalate (Bind.bindPos P args kw)])
+  | "ggrid" :: kdim :: vals => (d, ["grid " ++ " ".intercalate (Shp.getGrid vals kdim.toNat!)])
+  | ["gbatch", sh, ndim] => (d, [s!"shape {showShape (Shp.appendBatchAxes (shapeOfTok sh) ndim.toNat!)}"])
   | "bcast" :: shapes =>
       (d, [match Shp.broadcastAll (shapes.map shapeOfTok) with
            | some r => s!"shape {showShape r}"
